@@ -162,4 +162,40 @@ theorem gen_no_package_state :
     Gen.Bls.tbls_funcs = ["Recover", "SigShare.Index", "SigShare.Value", "Sign", "Verify", "sliceUniqMap"] := by
   decide
 
+/-- the other emitter and the two coordinate splitters the contract calls go through, as `Model/Codec.lean`
+(`decodePubKey`, `sigToBigInt`) and the `kp` cases transcribe them: `NewKeyPair` = (x, x·G2 base) with x picked
+from the stream; `decodePubKey` answers with an ERROR below 129 bytes (the identity marshals to one byte) and
+else reads the words at 1, 33, 65, 97; `ToBigInt` leaves (0, 0) below 32 bytes, else `[0:32]` and `[32:]` -/
+theorem gen_splitters_pinned :
+    Gen.Bls.bls_NewKeyPair_src = ["func NewKeyPair(suite suites.Suite, random cipher.Stream) (kyber.Scalar, kyber.Point) {",
+      "x := suite.G2().Scalar().Pick(random)", "X := suite.G2().Point().Mul(x, nil)", "return x, X", "}"] ∧
+    Gen.Bls.dkg_decodePubKey_src = ["func decodePubKey(pubKey kyber.Point) (pubKeyCoor [4]*big.Int, err error) {",
+      "pubKeyMar, err := pubKey.MarshalBinary()", "if err != nil {", "return", "}",
+      "if len(pubKeyMar) < 32*4+1 {", "err = errors.New(\"public key is the point at infinity\")", "return", "}",
+      "for i := 0; i < 4; i++ {", "pubKeyCoor[i] = new(big.Int).SetBytes(pubKeyMar[32*i+1 : 32*i+33])", "}",
+      "return", "}"] ∧
+    Gen.Bls.Signature_ToBigInt_src = ["func (m *Signature) ToBigInt() (x, y *big.Int) {", "x = new(big.Int)",
+      "y = new(big.Int)", "if len(m.Signature) < 32 {", "return", "}", "x.SetBytes(m.Signature[0:32])",
+      "y.SetBytes(m.Signature[32:])", "return", "}"] := by decide
+
+/-- **group/bn256 keeps no mutable package-level state**: the complete list of its package-level variables
+(file, name, written outside `init` — assigned, `++`, address taken, a method called on it) is exactly the
+constants, generators and reflect types below; only `hasBMI2` (CPU feature flag, set by the C10 hook) counts as
+written.  A cache / pool / memo table / counter added to the package (`var g1EqualBuf = sync.Pool{…}`,
+`var g2Checked = struct{…}`, `var millerCalls uint32`) changes this list -/
+theorem gen_bn256_package_state :
+    Gen.Bls.bn256_package_vars = [("constants.go", "u", false), ("constants.go", "Order", false),
+      ("constants.go", "P", false), ("constants.go", "p2", false), ("constants.go", "np", false),
+      ("constants.go", "rN1", false), ("constants.go", "r2", false), ("constants.go", "r3", false),
+      ("constants.go", "xiToPMinus1Over6", false), ("constants.go", "xiToPMinus1Over3", false),
+      ("constants.go", "xiToPMinus1Over2", false), ("constants.go", "xiToPSquaredMinus1Over3", false),
+      ("constants.go", "xiTo2PSquaredMinus2Over3", false), ("constants.go", "xiToPSquaredMinus1Over6", false),
+      ("constants.go", "xiTo2PMinus2Over3", false), ("curve.go", "curveB", false), ("curve.go", "curveGen", false),
+      ("gfp.go", "hasBMI2", true), ("gfp12.go", "gfP12Gen", false), ("gfp12.go", "gfP12Inf", false),
+      ("optate.go", "sixuPlus2NAF", false), ("suite.go", "aScalar", false), ("suite.go", "aPoint", false),
+      ("suite.go", "aPointG1", false), ("suite.go", "aPointG2", false), ("suite.go", "aPointGT", false),
+      ("suite.go", "tScalar", false), ("suite.go", "tPoint", false), ("suite.go", "tPointG1", false),
+      ("suite.go", "tPointG2", false), ("suite.go", "tPointGT", false), ("twist.go", "twistB", false),
+      ("twist.go", "twistGen", false)] := by decide
+
 end Dos.Props.C06Emit
